@@ -449,9 +449,15 @@ def object_specification_twins(rep, rule, u, dmod):
             continue
         if r == PROV:
             kinds.add('own')
-            inst = [t for k, t, p in ps.order if k.startswith('PyObject_IsInstance(%s, ' % PROV)
-                    or k.startswith('PyObject_TypeCheck(%s, ' % PROV)]
-            if not inst or inst[-1] is not True:
+            tests = [e for e in calls(ps) if e.name in ('PyObject_IsInstance',
+                                                         'PyObject_TypeCheck')
+                     and args_of(e)[:1] == [PROV]]
+            okspec = False
+            for e in tests:
+                vals = int_values(ps, repr(e))
+                if vals and all(v > 0 for v in vals):
+                    okspec = True
+            if not okspec:
                 probs.append('returns __provides__ without testing that it is a '
                              'specification')
         elif r == 'implementedBy(module, %s)' % CLS:
